@@ -396,6 +396,14 @@ def drive(case):
         if (cookie_usable and cookie_method and not nonascii) or (pw_usable and case["password"] in ("str", "deferred", "deferred-late", "coroutine")):
             res.bad("null-auth-despite-better-method", "methods %r cookie_usable=%r password=%r wrote %r" % (
                 methods, cookie_usable, case["password"], lines))
+    # the cookie file named by Tor cannot be opened (absent, or present but unreadable - a directory stands in for
+    # "permission denied", which root cannot produce): no cookie method is usable, so the next method in the order,
+    # the password, is used when Tor advertises it and the application supplies one
+    if cookie_method and cf is not None and cf["content"] in ("absent", "dir") and pw_usable and not lost_waiting \
+            and case["password"] in ("str", "deferred", "deferred-late", "coroutine"):
+        if calls != 1 or auth_tokens != [PW.encode().hex()]:
+            res.bad("unreadable-cookie-password-not-used", "methods %r, cookie file %s, provider calls %d, wrote %r" % (
+                methods, cf["content"], calls, lines))
     # positive expectations in clean configurations (no cookie method advertised at all)
     if not cookie_method:
         if pw_usable:
